@@ -7,6 +7,7 @@ payload {mode: 'roundtrip', cases: [[{name, section, v}, ...], ...]}
 payload {mode: 'boolean', cases: [str, ...]}     -> parse_boolean on each string
 Tagged values: ['b', bool] | ['i', decimal str] | ['f', hex of the IEEE bits] | ['s', str]."""
 import json
+import signal
 import logging
 import os
 import struct
@@ -58,6 +59,7 @@ def describe():
 def roundtrip(case, idx):
     out = {'ok': False}
     try:
+        signal.alarm(30)
         p = Parameters()
         for a in case:
             p.set_value(a['name'], untag(a['v']), a['section'])
@@ -74,7 +76,9 @@ def roundtrip(case, idx):
         out['kept'] = [tag(p.get_value(a['name'], a['section'])) for a in case]
         out['ok'] = True
         os.remove(fn)
+        signal.alarm(0)
     except Exception as e:  # noqa
+        signal.alarm(0)
         out['exc'] = type(e).__name__
         out['msg'] = str(e)[:300]
     return out
@@ -88,6 +92,13 @@ def boolean(s):
         return ['e', 'BiogemeError']
     except Exception as e:  # noqa
         return ['e', type(e).__name__]
+
+
+def _alarm(*a):
+    raise TimeoutError('no answer after 30 s')
+
+
+signal.signal(signal.SIGALRM, _alarm)
 
 
 def main():
